@@ -13,6 +13,7 @@ import (
 	"verif/internal/c11"
 	"verif/internal/c10"
 	"verif/internal/c13"
+	"verif/internal/c14"
 	"verif/internal/c15"
 	"verif/internal/c19"
 	"verif/internal/c16"
@@ -30,6 +31,7 @@ var checks = map[string]func(tier, replay string){
 	"C10": c10.Main,
 	"C18": c10.Main18,
 	"C13": c13.Main,
+	"C14": c14.Main,
 	"C15": c15.Main,
 	"C19": c19.Main,
 	"C16": c16.Main,
